@@ -182,8 +182,11 @@ static inline int
 bn_mod_sub(bn_p bn, bn_p n, bn_p m, bn_mod_rd_data_p mod_rd_data)
 __CPROVER_requires(VF_ECBN_RW(bn) && VF_ECBN_R(n) && VF_ECBN_R(m) && bn != m)
 __CPROVER_assigns(VF_BN_FRAME(bn))
-__CPROVER_assigns(VF_EC_STATUS_ASSIGNS)
+__CPROVER_assigns(VF_EC_STATUS_ASSIGNS, vf_g.msub)
 __CPROVER_ensures(VF_EC_STATUS_ENSURES)
+__CPROVER_ensures(vf_n_msub == __CPROVER_old(vf_n_msub) + 1u &&
+    vf_msub_z0 == ((__CPROVER_old(vf_n_msub) == 0) ? (__CPROVER_return_value == 0 && bn->digits == 0) : __CPROVER_old(vf_msub_z0)) &&
+    vf_msub_z1 == ((__CPROVER_old(vf_n_msub) == 1) ? (__CPROVER_return_value == 0 && bn->digits == 0) : __CPROVER_old(vf_msub_z1)))
 __CPROVER_ensures(__CPROVER_return_value == 0 ==> (vf_bn_wf(*bn) && vf_bn_val(*bn) < vf_bn_val(*m)))
 ;
 VF_ECBN_MODOP1(bn_mod_sqrt)
